@@ -147,6 +147,14 @@ Proof.
     unfold Base2DIn2D__check_vertices_input. cbn [app]. reflexivity.
 Qed.
 
+(* the clean-up keeps the `interpolated` flag of the polyline *)
+Theorem polyline_remove_colinear_keeps_flag (p : Polyline2R) tol :
+  pl2_interp (Polyline2D_remove_colinear_vertices p tol) = pl2_interp p.
+Proof.
+  unfold Polyline2D_remove_colinear_vertices. cbv zeta. destruct (py_len (pl2_vertices p) =? 3)%Z; [reflexivity|].
+  destruct (fold_left _ _ _) as [new skip]. reflexivity.
+Qed.
+
 (* what the scan guarantees: only original vertices, in their order, each kept one a genuine corner w.r.t. the previous kept vertex *)
 Lemma scanp_sub tol l : forall prev v, In v (scanp tol prev l) -> In v (map fst l).
 Proof.
